@@ -250,6 +250,18 @@ def monitor (cfgF : Fields) (ops : List (Nat × Fields)) : String :=
         if !woi && op = "ins" && getD f "loc" "-" ≠ "d" && quiet && w > 0 && !evicted then
           some (fail "C12" "write_on_eviction_wrote_at_insert" s!"insert of {k} wrote {w} bytes although nothing was evicted")
         else none
+      -- C12: one call puts an entry on the device at most once
+      let wentL := listOf (getD f "went" "-")
+      let rec firstDup : List String → Option String
+        | [] => none
+        | x :: xs => if xs.contains x then some x else firstDup xs
+      let dupWrite : Option String :=
+        if reins then none else (firstDup wentL).map fun x =>
+          -- in a call that only lets the flusher run (unhold, release, wait, close) two copies mean the entry was
+          -- queued twice earlier
+          let flushOnly := op = "unhold" || op = "releaseall" || op = "releasebatch" || op = "wait" || op = "reopen"
+          fail "C12" (if flushOnly then "queued_entry_written_twice" else "entry_written_twice_by_one_call")
+            s!"entry key.version {x} was written to the device twice during {op}"
       let woiEvict : Option String :=
         if woi && op = "evict" && quiet && w > 0 then some (fail "C12" "write_on_insertion_wrote_at_eviction" s!"{w} bytes") else none
       -- C15: graceful close
@@ -340,7 +352,7 @@ def monitor (cfgF : Fields) (ops : List (Nat × Fields)) : String :=
         | "ins" | "wins" | "rm" => base.filter (· ≠ k)
         | "clear" | "reopen" => []
         | _ => base
-      match lookupFail <|> persistFail <|> rewriteFail <|> hitWrite <|> inMemOnDisk <|> onDiskResident <|> woiInsert <|> woeInsert <|> woiEvict <|> closeFail with
+      match lookupFail <|> persistFail <|> rewriteFail <|> hitWrite <|> inMemOnDisk <|> onDiskResident <|> woiInsert <|> woeInsert <|> woiEvict <|> dupWrite <|> closeFail with
       | some s => s
       | none =>
         go { truth := truth', advice := advice', big := big', prevMem := mem, wild := wild', ghost := ghost', inval := inval', lastLoc := lastLoc', persisted := persisted', fromDisk := fromDisk', held := held', gated := gated' }
